@@ -34,7 +34,8 @@ class C19(SingleRun):
     RULE = ("each seed (definition + full fault mix) is executed in this interpreter (PYTHONHASHSEED=0) and in fresh interpreters under "
             "PYTHONHASHSEED=1 and a seed-derived value with other worker counts; digest chains (graph, inspection report, every "
             "get_next_tasks() answer in order, the persisted form after every call incl. insertion order, errors, output) are compared; "
-            "get_next_tasks() is called twice at every dispatch point; non-trivial = the definition has a join and a with-items or split task")
+            "get_next_tasks() is called twice at every dispatch point; 15% of the seeds instead break the definition in 1-4 places and "
+            "compare the (non-empty) inspection report, in the order inspect() returns it, across the interpreters; non-trivial = the definition has a join and a with-items or split task")
     RUNS = {"quick": 1600, "thorough": 40000}
     faults = dict(poll_skip=0.1, poll_twice=0.1, restart=0.05, dup=0.05, pause=0.03, resume_early=0.1, cancel=0.02,
                   bad_request=0.03, rerun=0.3, p_fail=0.15)
@@ -51,6 +52,25 @@ class C19(SingleRun):
         w = r["world"]
         out["extra"] = {"chain": w.chain if w else None}
         return out
+
+    # -- inspection report leg: "inspection yields the identical report" needs definitions whose
+    #    report is not empty. A share of the seeds breaks the generated definition in several places
+    #    (the C15 mutant menu plus references to one unassigned variable from several values of one
+    #    property, where the report's sort key ties) and chains the report text in its own order.
+    REPORT_SHARE = 0.15
+
+    def evaluate(self, seed, tier):
+        K = Keyed(seed)
+        if K.u("profile", "report") >= self.REPORT_SHARE:
+            return SingleRun.evaluate(self, seed, tier)
+        prog = driver.make_program(K, self.profile(seed, tier))
+        d = lang.render(prog)
+        kinds = break_definition(d, prog, K.rng("report"))
+        chain, n = report_chain(d)
+        return {"outcome": "ok", "error": None, "final": None, "sig": digest([canon(d), "report"]),
+                "stats": dict([("report_mode", 1), ("report_entries", n)] + [("report_" + k, 1) for k in set(kinds)]),
+                "nontrivial": n >= 2, "extra": {"chain": chain, "definition": d},
+                "sample": {"report_mode": sorted(set(kinds)), "entries": n} if n >= 2 else None}
 
     def chains_for(self, seeds, tier):
         res = {}
@@ -85,6 +105,10 @@ class C19(SingleRun):
         return viol, cov
 
     def case_for_seed(self, seed, tier, hs):
+        if Keyed(seed).u("profile", "report") < self.REPORT_SHARE:
+            r = self.evaluate(seed, tier)
+            return {"mode": "report", "seed": seed, "definition": r["extra"]["definition"], "hashseed": hs,
+                    "chain_here": r["extra"]["chain"]}
         profile = self.profile(seed, tier)
         r = driver.run_seed(seed, profile)
         from dst.props import _case
@@ -92,6 +116,20 @@ class C19(SingleRun):
         return c
 
     def replay_case(self, case, as_prop=None):
+        if case.get("mode") == "report":
+            here = report_chain(case["definition"])[0]
+            env = dict(os.environ, PYTHONHASHSEED=str(case["hashseed"]))
+            code = ("import sys, json; sys.path.insert(0, %r); from dst import twins; "
+                    "print('CHAIN', twins.report_chain(json.load(sys.stdin))[0])" % ROOT)
+            out = subprocess.run([sys.executable, "-c", code], input=json.dumps(case["definition"]), env=env,
+                                 capture_output=True, text=True, timeout=300)
+            there = [ln.split()[1] for ln in out.stdout.splitlines() if ln.startswith("CHAIN ")]
+            r = {"outcome": "ok", "stats": {}}
+            if there != [here]:
+                r = {"outcome": "violation", "stats": {}, "error": Violation(
+                    "C19", "same_digests", "inspection report digest %s under PYTHONHASHSEED=%s, %s here"
+                    % (there, case["hashseed"], here))}
+            return r
         r = SingleRun.replay_case(self, case, as_prop)
         if r["outcome"] != "ok" or not case.get("hashseed"):
             return r
@@ -118,6 +156,69 @@ class C19(SingleRun):
         if vi["clause"] == "same_digests":
             return case
         return SingleRun.shrink(self, case, vi)
+
+
+def report_chain(definition):
+    """(digest of the inspection report with every list in the order inspect() returned it, number
+    of entries); an exception leaving inspect() is part of the answer, not hidden."""
+    from orquesta.specs import native as native_specs
+    try:
+        report = native_specs.WorkflowSpec(copy.deepcopy(definition)).inspect()
+    except Exception as e:  # noqa
+        return digest(["raised", type(e).__name__, str(e)]), 0
+    return digest(report), sum(len(v) for v in report.values())
+
+
+def break_definition(d, prog, rng):
+    """Break a rendered definition in 1-4 places; returns the kinds applied."""
+    from dst.props import C15
+    kinds = []
+    tasks = d["tasks"]
+    names = list(tasks.keys())
+    for _ in range(1 + rng.randrange(4)):
+        kind = rng.choice(C15.MUTANTS + ("tied_refs", "tied_refs", "tied_refs"))
+        if kind == "no_start" and rng.random() < 0.7:
+            continue
+        if kind != "tied_refs":
+            try:
+                if C15.mutate(d, prog, kind, rng) is not None:
+                    kinds.append(kind)
+            except Exception:  # noqa  (a second mutation may meet what the first one left)
+                pass
+            continue
+        # several values of one property refer to the same unassigned variable(s): the entries of
+        # the report share schema path, spec path and variable name
+        n = names[rng.randrange(len(names))]
+        lng = rng.choice(["yaql", "jinja"])
+        vs = ["zz_u%d" % i for i in range(1 + rng.randrange(3))]
+
+        def ref(v, extra=""):
+            return ("<%% ctx().%s %%>%s" if lng == "yaql" else "{{ ctx().%s }}%s") % (v, extra)
+        where = rng.choice(["input", "publish", "vars", "output", "input_nested"])
+        vals = [ref(rng.choice(vs), " #%d" % i) for i in range(2 + rng.randrange(4))]
+        if rng.random() < 0.5:
+            vals.append(ref(vs[0]) + " " + ref(vs[-1], " both"))
+        if where == "input" and isinstance(tasks[n].get("input", {}), dict):
+            for i, v in enumerate(vals):
+                tasks[n].setdefault("input", {})["zz_k%d" % i] = v
+        elif where == "input_nested" and isinstance(tasks[n].get("input", {}), dict):
+            tasks[n].setdefault("input", {})["zz_n"] = {"a": vals[0], "b": [vals[1], {"c": vals[-1]}], "d": vals[-1]}
+        elif where == "publish" and tasks[n].get("next") and isinstance(tasks[n]["next"][0].get("publish", []), list):
+            tr = tasks[n]["next"][rng.randrange(len(tasks[n]["next"]))]
+            if not isinstance(tr.get("publish", []), list):
+                continue
+            for i, v in enumerate(vals):
+                tr.setdefault("publish", []).append({"zz_p%d" % i: v})
+        elif where == "vars":
+            for i, v in enumerate(vals):
+                d.setdefault("vars", []).append({"zz_v%d" % i: v})
+        elif where == "output":
+            for i, v in enumerate(vals):
+                d.setdefault("output", []).append({"zz_o%d" % i: v})
+        else:
+            continue
+        kinds.append("tied_refs")
+    return kinds
 
 
 def sub_chains(seeds, tier, hashseed, workers):
